@@ -1,7 +1,7 @@
 # plan and claim for C15 (X.509 create / parse / verify); J and both are injected by driver/plan.py
 _CFG = ["avx2", "purego"]
 _OB = both("c15.objects", _CFG, shards=(6, 14), floor=1000)
-_CH = both("c15.chains", _CFG, shards=(8, 16), floor=3500)
+_CH = both("c15.chains", _CFG, shards=(8, 16), floor=4600)
 _PO = both("c15.pools", _CFG, shards=(4, 8), floor=700)
 _AP = both("c15.apis", _CFG, shards=(2, 4), floor=200)
 _RE = both("c15.reissue", _CFG, shards=(1, 4), floor=700)
@@ -29,6 +29,23 @@ PLAN = dict(
          "to refuse a returned chain; a chain is demanded only when the bound cannot be reached; the verdict under a tight bound is compared with crypto/x509). The pools "
          "are built once per instance and reused by all queries three times in four; after every Verify the caller's KeyUsages must be unchanged and the returned slices are overwritten. "
          "Names under constraints include quoted-string mailboxes and URIs without a fully qualified host (IP literal, no authority). "
+         "The recipe critical-extension puts on one certificate of the chain (any position) one thing a verifier cannot evaluate, marked critical: an unknown extension, one of 19 other "
+         "identifiers (policy constraints, inhibitAnyPolicy, policy mappings, issuerAltName ..., identifiers next to the known ones), a subjectAltName of one unevaluated GeneralName form only, "
+         "or nameConstraints with an unevaluated form in the permitted or (two times in three) excluded subtrees, written by hand through ExtraExtensions together with whatever evaluated constraints other recipes of a mix put on the same CA. "
+         "Second part of c15.chains (after the generated topologies; alone it is registered as c15.extensions): one case = one entry of a systematic enumeration (1110 entries; quick: once, thorough: 6 PRNG rounds), built as a PKI of its own (depth, windows, usages, keys, order of hand-written "
+         "entries from the case PRNG) in the three instances of c15.chains and judged in the same way: (A) nameConstraints with each of 6 unevaluated GeneralName forms (otherName, x400Address, directoryName, "
+         "ediPartyName, registeredID, an undefined tag) x permitted / excluded / both sides x critical / not x CA = root / issuing CA / upper intermediate x company of evaluated constraints the target satisfies "
+         "(none, same side, other side, DNS+IP on both sides); (B) 21 extension identifiers x critical / not x target / intermediate / root / target that is itself an anchor / one of two versions of a CA "
+         "(the chain through the other version is demanded and must be the only one); (C) subjectAltName with each unevaluated form x critical / not x alone / with a dNSName x target / intermediate / root, half of them "
+         "below a constrained CA; (D) the evaluated forms DNS / email / IPv4 / IPv6 / URI x permitted / excluded / both (excluded subtree inside the permitted one) x target names inside, in the excluded part, outside, "
+         "two names of which one decides (either order), a name of another form (IPv6 address under IPv4 constraints and vice versa), none x root / issuing CA, written by hand or by CreateCertificate, critical or not; "
+         "(E) 25 complete nameConstraints values that are malformed (empty value, empty subtrees, surplus or misordered elements, bytes after the value, IP constraints of 0/4/5/16/31 octets or with a mask with a hole, "
+         "non-IA5 dNSName) or unusual x critical / not x 2 positions: refusal at parsing is an acceptable answer that must not depend on the key types, a malformed critical value must never be part of a returned chain, "
+         "the rest is compared between the instances and with crypto/x509 only; (F) GeneralSubtree minimum/maximum fields (differentials only); (H) 12 dNSName / rfc822Name values that cannot be read as a domain name or mailbox (space, empty label, no @, empty part; "
+         "debatable ones - trailing or leading period, empty - are compared only) on a target below permitted / excluded constraints of the form or constraints on another form only: below permitted subtrees of "
+         "the form the chain must be refused; (I) key identifiers / authority information access marked critical (refusal must not depend on the key types); one extension case in three of (B) carries a further "
+         "unknown non-critical extension before or after the enumerated one; IP names of the other family in (D) repeat the leading octets of an address inside the subtree; (G) verification time one second outside / at / inside the NotBefore or "
+         "NotAfter of exactly one certificate, for every position of chains of depth 0..3, all other certificates valid. "
          "c15.pools: one case = one history of 4..8 CertPool objects over a generated PKI (same recipes; plus a same-subject CA with an unrelated key and a leaf of its own, "
          "0..9 filler CAs, one time in three a cluster of 4..6 same-subject CAs): a base pool filled one certificate at a time or by PEM bundles, clones of it and clones of "
          "clones extended separately through AddCert / AppendCertsFromPEM (1-3 blocks, blocks to skip in between, buffer overwritten afterwards) / AddCertWithConstraint "
@@ -57,7 +74,7 @@ PLAN = dict(
          "subject key, every second SM2/P-256 signer (issuer, CSR, self-signed) key, the temporary key of 6 of every 7 SM2 CFCA requests (each class "
          ">= 3 times per quick run) and one key of every third topology. c15.sha1: the object workload restricted to SHA-1 signature algorithms, run with GODEBUG=x509sha1=1 only. "
          "distinct = class keys (configuration | object kind / signer / algorithm / subject key / CA / constraints, or recipe / depth / "
-         "number of certificates / outcome pattern, or pools / instance keys / recipe / number of pools / fillers, or apis / signer / algorithm / leaves, or reissue / kind / signer / shape or rule); no case is marked trivial",
+         "number of certificates / outcome pattern, or extension family / form or identifier or value / side / criticality / position / outcome, or pools / instance keys / recipe / number of pools / fillers, or apis / signer / algorithm / leaves, or reissue / kind / signer / shape or rule); no case is marked trivial",
     # the purego children take about twice as long as the others: they are started first
     jobs=[_CH[1], _OB[1], _CH[0], _OB[0], _PO[1], _PO[0], _AP[1], _AP[0], _RE[1], _RE[0],
           J("c15.sha1", configs=["sha1ok"], variant="asm", shards=(1, 2), floor=120)],
@@ -72,6 +89,11 @@ PLAN = dict(
                  "Verify giving up after its documented budget of 100 signature checks is recorded as inconclusive (possible where many same-subject CAs share a pool)",
                  "template histories: a template that crypto/x509 refuses although smx509 accepts it (nil serial number on this toolchain) is not compared with the twin; "
                  "request templates refused by both libraries, or whose product neither can parse (critical extensions inside the deprecated Attributes), are counted, not judged",
+                 "a critical extension that the verifier does not evaluate must stop chain building (RFC 5280 4.2, documented for Certificate.UnhandledCriticalExtensions); the set of evaluated "
+                 "extensions / GeneralName forms is the documented one (key usage, basic constraints, SAN with at least one dNSName / rfc822Name / iPAddress / URI, nameConstraints over those four forms, "
+                 "CRL distribution points, key identifiers, EKU, certificate policies, AIA); policy constraints / inhibitAnyPolicy / policy mappings are not evaluated by smx509: the twin verdict of crypto/x509 "
+                 "is not compared for them (later toolchains evaluate them)",
+                 "GeneralSubtree minimum/maximum fields and unusual but parseable nameConstraints values are outside the model: executed, compared between key types and with crypto/x509, not judged",
                  "not driven: Roots nil (system pool / platform verifier), CurrentTime zero (wall clock), X25519 subject keys (refused by CreateCertificate as by crypto/x509)"],
 )
 
@@ -82,7 +104,8 @@ CLAIM = dict(
          "substitution (4 values), truncation and trailing-data extension of its DER is required to fail parsing or verification - unconditionally inside the signed portion and the signatureValue content (incl. the "
          "unused-bits octet, values 1..7), elsewhere unless TBS, signature and algorithm are unchanged; substituted and unauthorised issuer certificates are required to be refused. Every chain "
          "returned by Verify on generated PKIs is checked link by link against the generator's ground truth (signing edges, windows, CA/key "
-         "usage, path length, name constraints, EKU nesting, unknown critical extensions, host name when DNSName is set, membership of the pools given as Roots and Intermediates), "
+         "usage, path length, name constraints, EKU nesting, critical extensions the verifier cannot evaluate (unknown identifiers, policy extensions, nameConstraints with an unevaluated GeneralName form on the permitted or the excluded side, "
+         "subjectAltName without an evaluated form, malformed nameConstraints values; every position of the chain, enumerated systematically together with their non-critical twins which must not stop chain building), host name when DNSName is set, membership of the pools given as Roots and Intermediates), "
          "also where a target has several candidate chains with differing rules and several requested usages, Verify must succeed whenever the ground truth has "
          "a valid chain, verdict and chain set must be independent of the key types and equal to crypto/x509's on an ECDSA twin (including Intermediates nil, DNSName and "
          "MaxConstraintComparisions). CertPool objects with histories (clones extended separately, PEM bundles, constrained entries, duplicates, reuse over many Verify calls and in "
